@@ -144,36 +144,37 @@ impl<const N: usize> Block<N> {
 }
 
 // ---- drop tracking ---------------------------------------------------------------------------
-// `Tracked` elements record creation / drop in a global table: every element must be dropped
-// exactly once and never be looked at after its drop (C16).
+// `Tracked` elements count creations and drops in two global counters (cheap for the solver: no
+// symbolically indexed table).  After every step of a history harness the number of live
+// elements must equal what the model says is stored (`live()`): a double drop, a drop of a
+// refused / overwritten element that did not happen, or a leak all show up as a mismatch.
+// The id (creation number) makes elements distinguishable, so a container that returns the
+// wrong one of two equal-valued elements is caught as well.
 
 pub mod track {
-    pub const MAXID: usize = 24;
-    pub static mut NEXT: usize = 1;
-    /// 7 = unused, 1 = live, 2 = dropped
-    pub static mut ST: [u8; MAXID] = [7; MAXID];
+    const BASE: u32 = 1000;
+    pub static mut CREATED: u32 = BASE;
+    pub static mut DROPPED: u32 = BASE;
 
     #[derive(Debug)]
     pub struct Tracked {
         pub id: u8,
         pub val: u8,
+        canary: u8,
     }
 
     impl Tracked {
         pub fn new(val: u8) -> Self {
             unsafe {
-                let id = NEXT;
-                assert!(id < MAXID, "harness: tracker table too small");
-                NEXT += 1;
-                ST[id] = 1;
-                Tracked { id: id as u8, val }
+                CREATED += 1;
+                let id = (CREATED - BASE) as u8;
+                Tracked { id, val, canary: id ^ 0x5A }
             }
         }
-        /// checked access
+        /// checked access: the element must not have been dropped (drop scrambles the canary of
+        /// the instance it runs on) and must not be uninitialised garbage
         pub fn val(&self) -> u8 {
-            unsafe {
-                assert!((self.id as usize) < MAXID && ST[self.id as usize] == 1, "c16: element accessed after its drop");
-            }
+            assert!(self.canary == self.id ^ 0x5A, "c16: element accessed after its drop (or never initialised)");
             self.val
         }
     }
@@ -194,30 +195,26 @@ pub mod track {
     impl Drop for Tracked {
         fn drop(&mut self) {
             unsafe {
-                assert!((self.id as usize) < MAXID && ST[self.id as usize] == 1, "c16: element dropped twice (or never created)");
-                ST[self.id as usize] = 2;
+                assert!(self.canary == self.id ^ 0x5A, "c16: element dropped twice (or never created)");
+                self.canary = 0;
+                DROPPED += 1;
+                assert!(DROPPED <= CREATED, "c16: more drops than creations");
             }
         }
     }
 
-    /// every element created so far has been dropped exactly once (unrolled: no loop, so the
-    /// table size does not dictate the harness' unwind bound)
-    pub fn assert_all_dropped() {
-        macro_rules! chk {
-            ($($i:literal)*) => { $(
-                unsafe {
-                    if $i < NEXT {
-                        assert!(ST[$i] == 2, "c16: element leaked (never dropped)");
-                    } else {
-                        assert!(ST[$i] == 7);
-                    }
-                }
-            )* };
-        }
-        chk!(1 2 3 4 5 6 7 8 9 10 11 12 13 14 15 16 17 18 19 20 21 22 23);
+    /// id the next created element will get
+    pub fn next_id() -> u8 {
+        unsafe { (CREATED - BASE + 1) as u8 }
     }
 
-    pub fn is_live(id: u8) -> bool {
-        unsafe { (id as usize) < MAXID && ST[id as usize] == 1 }
+    /// number of elements created and not yet dropped
+    pub fn live() -> usize {
+        unsafe { (CREATED - DROPPED) as usize }
+    }
+
+    /// every element created so far has been dropped exactly once
+    pub fn assert_all_dropped() {
+        assert!(live() == 0, "c16: element leaked (never dropped) or dropped twice");
     }
 }
